@@ -256,3 +256,46 @@ Proof.
   - exists (skipn (k - 1) (reports g c ps)). rewrite firstn_skipn. reflexivity.
   - exists []. rewrite app_nil_r. reflexivity.
 Qed.
+
+(* ---------------- configuration defaults ---------------- *)
+(* ensureMinimumDefaults makes every decodable configuration well-formed for Reports *)
+Theorem defaults_wf r : rw_limit r < two32 -> rw_over r < two32 -> wf_cfg (cfg_of_raw r).
+Proof.
+  intros Hl Ho. unfold wf_cfg, cfg_of_raw, ensure_defaults, two32 in *. cbn.
+  destruct (Z.leb_spec (rw_batch r) 0), (N.eqb_spec (rw_limit r) 0), (N.eqb_spec (rw_over r) 0); lia.
+Qed.
+
+Theorem defaults_nonzero r :
+  (1 <= c_batch (cfg_of_raw r))%Z /\ 0 < c_limit (cfg_of_raw r) /\ 0 < c_over (cfg_of_raw r).
+Proof.
+  unfold cfg_of_raw, ensure_defaults. cbn.
+  destruct (Z.leb_spec (rw_batch r) 0), (N.eqb_spec (rw_limit r) 0), (N.eqb_spec (rw_over r) 0); lia.
+Qed.
+
+(* values the operator set inside the acceptable range are left alone *)
+Theorem defaults_keep r :
+  (1 <= rw_batch r)%Z -> 0 < rw_limit r -> 0 < rw_over r ->
+  cfg_of_raw r = mkCfg (rw_batch r) (rw_limit r) (rw_over r).
+Proof.
+  intros Hb Hl Ho. unfold cfg_of_raw, ensure_defaults. cbn.
+  destruct (Z.leb_spec (rw_batch r) 0), (N.eqb_spec (rw_limit r) 0), (N.eqb_spec (rw_over r) 0);
+    try reflexivity; exfalso; lia.
+Qed.
+
+Theorem defaults_idempotent r : ensure_defaults (ensure_defaults r) = ensure_defaults r.
+Proof.
+  destruct r as [lo pl ro mc li ov ba]. unfold ensure_defaults. cbn.
+  destruct (Z.leb_spec lo 0), (Z.eqb_spec pl 0), (Z.leb_spec ro 0), (Z.leb_spec mc 0),
+           (N.eqb_spec li 0), (N.eqb_spec ov 0), (Z.leb_spec ba 0); cbn;
+  repeat match goal with
+         | |- context [Z.leb ?a ?b] => destruct (Z.leb_spec a b); try (exfalso; lia)
+         | |- context [Z.eqb ?a ?b] => destruct (Z.eqb_spec a b); try (exfalso; lia)
+         | |- context [N.eqb ?a ?b] => destruct (N.eqb_spec a b); try (exfalso; lia)
+         end; reflexivity.
+Qed.
+
+(* the property for every configuration an operator can write (gas figures are uint32 fields) *)
+Theorem reports_spec_any_config r ps :
+  rw_limit r < two32 -> rw_over r < two32 -> wf_perfs ps ->
+  C04_spec (cfg_of_raw r) ps (reports true (cfg_of_raw r) ps).
+Proof. intros Hl Ho Hp. apply reports_spec; [apply defaults_wf; assumption | exact Hp]. Qed.
